@@ -702,26 +702,28 @@ func (self Node) Gets(keys []PathNode, opts *Options) error {
 	}
 
 	need := len(keys)
+	strKey := keys[0].Path.Type() == PathStrKey
 	for count := 0; it.HasNext() && count < need; {
+		// read one entry, then look for its key among all the requested keys
+		var keyStr string
+		var keyInt, s, e int
+		if strKey {
+			_, keyStr, s, e = it.NextStr(UseNativeSkipForGet)
+		} else {
+			_, keyInt, s, e = it.NextInt(UseNativeSkipForGet)
+		}
+		if it.Err != nil {
+			return errNode(meta.ErrRead, "", it.Err)
+		}
 		for j, id := range keys {
-			if id.Path.Type() == PathStrKey {
-				exp := id.Path.str()
-				_, key, s, e := it.NextStr(UseNativeSkipForGet)
-				if it.Err != nil {
-					return errNode(meta.ErrRead, "", it.Err)
-				}
-				if key == exp {
+			if strKey && id.Path.Type() == PathStrKey {
+				if keyStr == id.Path.str() {
 					keys[j].Node = self.slice(s, e, et)
 					count += 1
 					break
 				}
-			} else if id.Path.Type() == PathIntKey {
-				exp := id.Path.int()
-				_, key, s, e := it.NextInt(UseNativeSkipForGet)
-				if it.Err != nil {
-					return errNode(meta.ErrRead, "", it.Err)
-				}
-				if key == exp {
+			} else if !strKey && id.Path.Type() == PathIntKey {
+				if keyInt == id.Path.int() {
 					keys[j].Node = self.slice(s, e, et)
 					count += 1
 					break
